@@ -28,14 +28,14 @@ ASSUMPTIONS = [
 
 PATHS = ['/p/.zinoma', '/p/.zinoma/a.checksums', '/p/.zinoma/b.checksums', '/p/.zinoma/d.checksums',
          '/p/outa', '/p/outa/f', '/p/gen', '/p/gen/x.o', '/p/gen/y.txt', '/p/outb', '/p/in.txt',
-         '/p/gen/lnk.o', '/ext', '/ext/v.o']
+         '/p/gen/lnk.o', '/ext', '/ext/v.o', '/p/outc']
 LINKS = {'/p/gen/lnk.o': '/ext', '/p/outb': '/ext'}     # (second entry: a plain declared output that is itself a symlink -- to a directory, a file or nothing)
 # first entry: a symlink below an extension-filtered output (its own name matches the filter), pointing outside every declared path;
                                      # /ext may be a directory (with a matching file in it), a regular file or missing
 
 TARGETS = {
     'a': {'deps': ['d'], 'out': [(['/p/outa'], None), (['/p/gen'], ['.o'])], 'in': [(['/p/in.txt', '/p/gen/y.txt'], None)]},
-    'b': {'deps': [], 'out': [(['/p/outb'], None)], 'in': []},
+    'b': {'deps': [], 'out': [(['/p/outb', '/p/outc'], None)], 'in': []},      # one plain resource with two paths (either may be missing)
     'd': {'deps': [], 'out': [], 'in': [(['/p/in.txt'], None)]},
 }
 
